@@ -3,7 +3,10 @@ C08 — soft-fork safety: nodes unaware of an extension accept what aware nodes 
 
 This file: the opcode-level facts (the assigned 4-byte secp operators cost exactly what the
 unknown-operator rule gives for their opcodes, and return nil on success like every unknown
-operator).  The guard-level simulation is in preparation (see DESIGN §5 C08).
+operator), and the whole-run simulation `hide_sim` / `hide_sim_crypto` (below; proved in
+Lemmas/Interp/{HideSim,HideCrypto}.lean on top of the frame theorem of BigStep.lean and the
+program-level guard theorem of GuardBig.lean): whatever the extension-aware dialect computes, the
+extension-hiding dialect computes too — same cost, value and allocator counters.
 -/
 import ClvmModel.Interp.Machine
 import ClvmProofs.Lemmas.Interp.HideSim
